@@ -24,6 +24,8 @@
 (*   const n a        constant n = a                                       *)
 (*   i1               one-byte instruction                                 *)
 (*   m2               a macro of two 4-bit instruction steps (two bytes)    *)
+(*   ustr             .cstr with one character beyond 8 bits: one byte (its *)
+(*                    low byte) and the terminator                         *)
 (*   i2 n a / i3 n a  opcode + 8 / 16 bit operand: label or symbol n, or   *)
 (*                    literal a when n = ""                                *)
 (*   byte n a b       b data bytes: (n or a), a+1, a+2, ...                *)
@@ -51,7 +53,7 @@ CONSTANTS
 
 Undef == -99            \* symbol / label / zone "not defined"
 NoEnd == -1             \* cfg files cannot write -1: use  WinEnd <- NoEnd
-SymNames  == {"S1", "S2", "S3"}
+SymNames  == {"S1", "S2", "S3", "S4", "S5", "S6", "S7", "S8"}
 ZoneNames == {"GLOBAL", "z1", "z2", "z3", "z4", "z5", "z6", "z7", "z8", "z9", "z10", "z11", "z12"}
 
 \* scope class of a name: global, file or local ("k.." are constants)
@@ -75,21 +77,23 @@ L(k, n, a, b) == [k |-> k, n |-> n, a |-> a, b |-> b]
 
 Active(stk) == stk = <<>> \/ (Last(stk).par /\ Last(stk).sel)
 
-CondKinds == {"ifdef", "ifndef", "if", "ifnz", "elif", "else", "endif", "mute", "unmute"}
-OpenKinds == {"ifdef", "ifndef", "if", "ifnz"}
+CondKinds == {"ifdef", "ifndef", "if", "ifnz", "ifx", "elif", "elifx", "else", "endif", "mute", "unmute"}
+\* ifx / elifx: trace use - a condition whose truth value was recorded (field a = 1 when it held)
+OpenKinds == {"ifdef", "ifndef", "if", "ifnz", "ifx"}
 
 Holds(l, defs) ==
     CASE l.k = "ifdef"  -> defs[l.n] # Undef
       [] l.k = "ifndef" -> defs[l.n] = Undef
       [] l.k \in {"if", "elif"} -> defs[l.n] = l.a
       [] l.k = "ifnz"   -> defs[l.n] # 0
+      [] l.k \in {"ifx", "elifx"} -> l.a = 1
       [] OTHER -> FALSE
 
 \* is the condition of l evaluated if l is reached now?  (needed to keep the generators away from the
 \* under-specified "undefined symbol inside #if")
 Evaluated(l, stk) ==
     CASE l.k \in OpenKinds -> Active(stk)
-      [] l.k = "elif" -> stk # <<>> /\ ~Last(stk).els /\ Last(stk).par /\ ~Last(stk).done
+      [] l.k \in {"elif", "elifx"} -> stk # <<>> /\ ~Last(stk).els /\ Last(stk).par /\ ~Last(stk).done
       [] OTHER -> FALSE
 
 \* returns [stk, mute, err]
@@ -98,7 +102,7 @@ CondStep(l, stk, mute, defs) ==
             LET par == Active(stk)
                 c   == par /\ Holds(l, defs)
             IN  [stk |-> Append(stk, [sel |-> c, done |-> c, par |-> par, els |-> FALSE]), mute |-> mute, err |-> ""]
-      [] l.k = "elif" ->
+      [] l.k \in {"elif", "elifx"} ->
             IF stk = <<>> THEN [stk |-> stk, mute |-> mute, err |-> "dangling"]
             ELSE LET t == Last(stk) IN
                  IF t.els THEN [stk |-> stk, mute |-> mute, err |-> "dangling"]
@@ -245,10 +249,10 @@ ReadAll(r, p, j) == IF j > Len(p) \/ r.status # "run" THEN r ELSE ReadAll(ReadSt
 ---------------------------------------------------------------------------
 (* Pass 1 (C02, C05): addresses, sizes, zone cursors, label binding.       *)
 
-ByteKinds == {"i1", "m2", "i2", "i3", "byte", "fill", "zero", "zuntil", "pdata", "raw"}
+ByteKinds == {"i1", "m2", "ustr", "i2", "i3", "byte", "fill", "zero", "zuntil", "pdata", "raw"}
 
 SizeOf(lo, addr) ==
-    CASE lo.k = "i1" -> 1 [] lo.k = "i2" -> 2 [] lo.k = "i3" -> 3 [] lo.k = "m2" -> 2
+    CASE lo.k = "i1" -> 1 [] lo.k = "i2" -> 2 [] lo.k = "i3" -> 3 [] lo.k = "m2" -> 2 [] lo.k = "ustr" -> 2
       [] lo.k = "byte" -> lo.b
       [] lo.k \in {"fill", "zero"} -> lo.a
       [] lo.k = "zuntil" -> IF lo.a >= addr THEN lo.a - addr + 1 ELSE 0
@@ -329,6 +333,7 @@ Fits(v, w) == -(Pow2(w - 1)) <= v /\ v <= Pow2(w) - 1
 BytesOf(o, tab) ==
     LET v == OperandVal(o, tab) IN
     CASE o.k = "i1" -> [bytes |-> <<234>>, err |-> ""]
+      [] o.k = "ustr" -> [bytes |-> <<65, 0>>, err |-> ""]
       [] o.k = "m2" -> [bytes |-> <<16, 32>>, err |-> ""]      \* each 4-bit step is padded to a byte of its own
       [] o.k = "i2" -> IF v = Undef THEN [bytes |-> <<>>, err |-> "unresolved"]
                        ELSE IF ~Fits(v, 8) THEN [bytes |-> <<>>, err |-> "fit"]
